@@ -468,7 +468,7 @@ void check_persistence(Cpx& C, const Ref<T>& R, const std::string& tag) {
 template <class T>
 std::string write_perseus(const Ref<T>& R, const std::vector<T>& in, bool negative_for_periodic, std::mt19937& rng,
                           int id) {
-  std::string name = "/tmp/seed/out/P13/tmp_perseus_" + std::to_string((long)getpid()) + "_" + std::to_string(id) + ".txt";
+  std::string name = "./tmp_perseus_" + std::to_string((long)getpid()) + "_" + std::to_string(id) + ".txt";
   std::ofstream f(name);
   f << R.D << "\n";
   for (int i = 0; i < R.D; ++i) f << ((negative_for_periodic && R.per[i]) ? -(int)R.s[i] : (int)R.s[i]) << "\n";
@@ -678,7 +678,7 @@ int main(int argc, char** argv) {
 }
 
 // ---------------------------------------------------------------------------------------------------------------------
-// RECORD (worktree /tmp/seed/P13, g++ 12). "KNOWN" categories are the defects 2 and 3 of defects.md, which every case
+// RECORD (worktree /repo, g++ 12). "KNOWN" categories are the defects 2 and 3 of defects.md, which every case
 // meets; the category ".../top_dimensional_cells_range" of mode 1 is defect 4 (one vertex side). Defect 1 (Perseus
 // reader of the non periodic class with T = float) was met on the first run and is now skipped (see one_case).
 // Apart from these, NOTHING failed in:
